@@ -147,9 +147,20 @@ def run_sweep(desc):
             sm = cls(objs["model"], allow_event_without_transition=allow,
                      listeners=[objs[p] for p in spec["providers"] if p not in ("sm", "model")])
         counters["sweep_machines"] += 1
+        # half of the machines are swept away from their initial state
+        if rng.random() < 0.5:
+            for _k in range(6):
+                try:
+                    al = [str(e) for e in sm.allowed_events]
+                    if not al:
+                        break
+                    sm.send(rng.choice(al))
+                except Exception:  # noqa: BLE001
+                    break
         declared = {str(e) for e in sm.events}
         names = [n for n in dir(sm) if n not in declared]
-        names += ["", " ", "zz_unknown", "send ", "Send", "go!", "state", "0", "None", "__nope__", "é"]
+        names += ["", " ", "zz_unknown", "send ", "Send", "go!", "state", "0", "None", "__nope__", "é",
+                  "__initial__", "__event__", "initial", "_initial_"]      # names the library uses internally
         names += [e + "x" for e in declared] + [e[:-1] for e in declared if len(e) > 1]
         names = [n for n in dict.fromkeys(names) if n not in declared]
         for name in names:
